@@ -16,9 +16,24 @@ or left in the document ("dangling": then both sides must fail alike).
              accepted by every handle of a lenient CAS, RuntimeError from every handle of a strict CAS
 In Coq (CorrC17.check_case): the model reader gives the same error kind / content, the model's lenient result equals the
 model's strict result on drop_unknown(document), the add guard gives every observed outcome.
+
+Second wave (the quantifier says "all XMI documents x ... x lenient in {True, False}"; the clauses are "with lenient=True it
+yields EXACTLY the CAS that the same document with those structures removed would yield" and "without lenient=True raises"):
+  source     the bytes are handed to load_cas_from_xmi as an open file, as a str or as a pathlib.Path, with trusted in
+             {False, True} drawn independently of lenient (the reference loads of the oracle always use an open file, trusted=False)
+  documents  in a quarter of the cases the sofa called _InitialView is renamed in the document, so that only named views are
+             declared and the reader has to invent the sofa of the initial view; in half of the cases with deleted types the
+             structures of deleted types carry the highest xmi:ids of the CAS
+  exactly    "the CAS that ... would yield" includes its id generators: after the load a fresh uima.cas.TOP is added through
+             the CAS and through every view handle, a new view is created and one more structure added; the xmi:ids / sofaNum
+             they receive must be the ones the CAS of the filtered document hands out for the same operations (oracle), and the
+             ones of the model's generators (Coq: XmiLoadC17.run_ops on gens_of)
 """
 import json
+import os
+import pathlib
 import random
+import shutil
 from io import BytesIO
 
 from harness import scen, xmlabs
@@ -26,9 +41,9 @@ from harness.gallina import gbool, glist, gstr
 from harness.props import C05 as c05
 
 ID = "C17"
-COQ_TARGETS = ["XmiLoad.vo", "XmiLoadProofs.vo", "CorrC05.vo", "CorrC17.vo", "Props/C17.vo"]
+COQ_TARGETS = ["XmiLoad.vo", "XmiLoadProofs.vo", "XmiLoadC17.vo", "XmiLoadC17Proofs.vo", "CorrC05.vo", "CorrC17.vo", "Props/C17.vo"]
 PROPS_FILE = "Props/C17.v"
-CORR_IMPORTS = "Base Heap Schema Canon XmiDoc XmiLoad CorrC17"
+CORR_IMPORTS = "Base Heap Schema Canon XmiDoc XmiLoad XmiLoadC17 CorrC17"
 ENTRY = "cassis.xmi.load_cas_from_xmi(lenient=...) / Cas.add / Cas._copy"
 CASES_PER_SHARD = 40
 SHARD_BYTES = 160_000
@@ -38,13 +53,18 @@ RULE = (
     "its short name equals the short name of a namespaced type) and CASes with 1-3 views; every scenario is run for a "
     "random subset of deleted user types (closed under subtypes and feature ranges; also the empty subset) x lenient in "
     "{True, False} x element order in {as written, shuffled, views and sofas first, reversed, descending ids}; references from kept to dropped structures are cleared before saving, except in 30% of the cases that have "
-    "such references, where they are left dangling; after a successful load a structure of a foreign type (new namespace, and a no-namespace name "
-    "equal to the short name of a known type) is added through 4-6 handles. Non-trivial: at least one element of the "
-    "document has a deleted type."
+    "such references, where they are left dangling; in 70% of the type systems one type has a StringArray / StringList feature written as nested child elements and is preferred for deletion; after a successful load a structure of a foreign type (new namespace, and a no-namespace name "
+    "equal to the short name of a known type) is added through 4-6 handles. The bytes reach load_cas_from_xmi as an open "
+    "file, a str or a pathlib.Path (a third each) with trusted in {False, True} independent of lenient; in a quarter of the "
+    "cases the _InitialView sofa is renamed in the document (only named views declared); in half of the cases with deleted "
+    "types their structures carry the highest xmi:ids; after every successful load fresh structures are added through "
+    "every handle and a view is created, and the xmi:ids / sofaNum they receive are compared with those of the filtered "
+    "document's CAS. Non-trivial: at least one element of the document has a deleted type."
 )
 TRUSTED = [
     "Coq 8.16.1 kernel and vm_compute; theorems in Props/C17.v closed under the global context (parse_flt universally quantified)",
-    "hand-written model coq/XmiLoad.v of the reader's lenient branch, member skipping, Cas.add guard and Cas._copy",
+    "hand-written model coq/XmiLoad.v of the reader's lenient branch, member skipping, Cas.add guard and Cas._copy; "
+    "coq/XmiLoadC17.v of the entry point's three source branches and of the two id generators of the loaded CAS",
     "harness/xmlabs.py (xml.etree only) for bytes <-> abstract documents and for the independent filtering of the document",
     "scen.schema_of for the reduced type system; Python float(str) as a table per case",
     "the document under test is cassis' own to_xmi output (writer correctness is C01/C04)",
@@ -134,15 +154,82 @@ def filter_doc(doc, schema_reduced):
 # ------------------------------------------------------------------------------------------------ implementation driver
 
 
-def _load(cassis, data, ts, lenient):
+def _load(cassis, data, ts, lenient, source="file", trusted=False):
+    """load_cas_from_xmi on the bytes, handed over as an open file, a str or a pathlib.Path (file under /verif/.work/<pid>/)."""
+    d = None
     try:
-        return "ok", cassis.load_cas_from_xmi(BytesIO(data), typesystem=ts, lenient=lenient)
+        if source == "str":
+            src = data.decode("utf-8")
+        elif source == "path":
+            from harness import core
+            d = os.path.join(core.VERIF, ".work", str(os.getpid()), "c17")
+            os.makedirs(d, exist_ok=True)
+            src = pathlib.Path(d) / "doc.xmi"
+            src.write_bytes(data)
+        else:
+            src = BytesIO(data)
+        return "ok", cassis.load_cas_from_xmi(src, typesystem=ts, lenient=lenient, trusted=trusted)
     except Exception as e:  # noqa: the kind is the observation
         return "err", type(e).__name__
+    finally:
+        if d is not None:
+            shutil.rmtree(d, ignore_errors=True)
+            try:
+                os.rmdir(os.path.dirname(d))            # /verif/.work/<pid>, when nothing else lives there
+            except OSError:
+                pass
 
 
-def _outcome(kind, val):
-    return {"err": val} if kind == "err" else {"canon": scen.canon(val, "xmi")}
+LATER_VIEW = "laterView"
+
+
+def _later(cassis, cas):
+    """Operations after the load and the numbers they receive from the id generators of the CAS: a fresh uima.cas.TOP (no
+    xmi:id) added through the CAS and through the handle of every view, a new view, one more add in that view."""
+    out = []
+    try:
+        top = cas.typesystem.get_type(scen.TOP)
+        for h in [cas] + [cas.get_view(s.sofaID) for s in cas.sofas]:
+            fs = top()
+            h.add(fs)
+            out.append(["add", [fs.xmiID]])
+        v = cas.create_view(LATER_VIEW)
+        out.append(["view", [v.get_sofa().xmiID, v.get_sofa().sofaNum]])
+        fs = top()
+        v.add(fs)
+        out.append(["add", [fs.xmiID]])
+    except Exception as e:  # noqa
+        out.append(["err", type(e).__name__])
+    return out
+
+
+def rename_initial(doc, new):
+    """The same document with the sofa called _InitialView called `new`: only named views are declared."""
+    elems = []
+    for e in doc["elems"]:
+        if xmlabs.kind(e) == "Sofa" and xmlabs.attr(e, "sofaID") == "_InitialView":
+            e = {"ns": e["ns"], "tag": e["tag"], "attrs": [[k, new if k == "sofaID" else v] for k, v in e["attrs"]], "kids": e["kids"]}
+        elems.append(e)
+    return {"root": doc.get("root"), "elems": elems}
+
+
+def raise_dropped_ids(cspec, deleted):
+    """The same CAS with the xmi:ids permuted so that the structures of deleted types carry the highest ones."""
+    c = json.loads(json.dumps(cspec))
+    if any(o.get("id") is None for o in c["objs"]):
+        return c
+    ids = sorted(o["id"] for o in c["objs"])
+    order = sorted(c["objs"], key=lambda o: (o["type"] in deleted, o["id"]))
+    for o, i in zip(order, ids):
+        o["id"] = i
+    return c
+
+
+def _outcome(cassis, kind, val):
+    if kind == "err":
+        return {"err": val}
+    c = scen.canon(val, "xmi")
+    return {"canon": c, "later": _later(cassis, val)}
 
 
 def _adds(cassis, cas, ts_full_names, sc):
@@ -184,26 +271,34 @@ def run_impl(cassis, sc):
     cas, _v, _o = scen.build_cas(cassis, ts_full, cspec)
     data = cas.to_xmi().encode("utf-8")
     doc = xmlabs.parse(data)
-    if sc.get("order"):          # the same document with its elements in another order (views / sofas anywhere)
-        idx = c05.order_of(doc, {"order": sc["order"]}, random.Random(sc.get("oseed", 0)))
-        data = xmlabs.write({"root": doc.get("root"), "elems": [doc["elems"][i] for i in idx]})
+    if sc.get("order") or sc.get("noinit"):   # the same document with its elements in another order (views / sofas anywhere)
+        idx = c05.order_of(doc, {"order": sc.get("order")}, random.Random(sc.get("oseed", 0)))
+        d2 = {"root": doc.get("root"), "elems": [doc["elems"][i] for i in idx]}
+        if sc.get("noinit"):                 # ... and / or without a sofa called _InitialView
+            d2 = rename_initial(d2, "zeroView")
+        data = xmlabs.write(d2)
         doc = xmlabs.parse(data)
     red = reduce_tspec(sc["tspec"], set(sc["deleted"]))
     schema = scen.schema_of(cassis, red)
     fdoc, gone = filter_doc(doc, schema)
     lenient = sc["lenient"]
-    k, v = _load(cassis, data, scen.build_ts(cassis, red), lenient)
-    main = _outcome(k, v)
+    source, trusted = sc.get("source", "file"), bool(sc.get("trusted"))
+    k, v = _load(cassis, data, scen.build_ts(cassis, red), lenient, source, trusted)
+    main = _outcome(cassis, k, v)
     adds = _adds(cassis, v, {t["name"] for t in red} | set(scen.builtin_table(cassis)), sc) if k == "ok" else []
     k2, v2 = _load(cassis, xmlabs.write(fdoc), scen.build_ts(cassis, red), False)
-    filtered = _outcome(k2, v2)
-    k3, v3 = _load(cassis, data, scen.build_ts(cassis, red), not lenient)
-    other = _outcome(k3, v3)
+    filtered = _outcome(cassis, k2, v2)
+    k3, v3 = _load(cassis, data, scen.build_ts(cassis, red), not lenient, source, trusted)
+    other = _outcome(cassis, k3, v3)
     names = c05.used_names(schema, doc)
     for t in red:                                   # every user type: short-name lookups must see them all
         if t["name"] not in names:
             names.append(t["name"])
-    return {"main": main, "filtered": filtered, "other": other, "adds": adds, "doc": doc, "n_unknown": len(gone) if gone else
+    top = max(doc["elems"], key=lambda e: int(xmlabs.attr(e, "xmi:id") or -1) if xmlabs.kind(e) in ("FS", "Sofa") else -1)
+    return {"main": main, "filtered": filtered, "other": other, "adds": adds, "doc": doc,
+            "top_dropped": xmlabs.kind(top) == "FS" and c05.type_of_elem(top) not in schema,
+            "dropped_kids": any(xmlabs.kind(e) == "FS" and e["kids"] and c05.type_of_elem(e) not in schema for e in doc["elems"]),
+            "n_unknown": len(gone) if gone else
             sum(1 for e in doc["elems"] if xmlabs.kind(e) == "FS" and c05.type_of_elem(e) not in schema),
             "flts": c05.float_table(scen.schema_of(cassis, sc["tspec"]), doc),
             "schema": {n: {"anc": schema[n]["anc"], "feats": [list(f) for f in schema[n]["feats"]]} for n in sorted(names)}}
@@ -213,21 +308,44 @@ def _same(a, b):
     return json.loads(json.dumps(a, sort_keys=True)) == json.loads(json.dumps(b, sort_keys=True))
 
 
+def _content(o):
+    return {k: v for k, v in o.items() if k != "later"}
+
+
+def _later_differs(what, a, b):
+    """Same content: do later operations receive the same numbers from both CASes?"""
+    if "later" in a and "later" in b and a["later"] != b["later"]:
+        return ("%s: the loaded CASes have the same content but hand out other xmi:ids / sofaNums afterwards "
+                "(add through the CAS and every view handle, create_view, add): %s vs %s" % (what, json.dumps(a["later"]), json.dumps(b["later"])))
+    return None
+
+
 def oracle(cassis, sc, obs):
     main, filt, other = obs["main"], obs["filtered"], obs["other"]
     unknown = obs["n_unknown"] > 0
+    how = "source=%s trusted=%s" % (sc.get("source", "file"), bool(sc.get("trusted")))
+    for o in (main, filt, other):
+        if any(x[0] == "err" for x in o.get("later", [])):
+            return "an operation after the load failed: %s" % json.dumps(o["later"])
     if not sc["lenient"]:
         if unknown and main.get("err") != "TypeNotFoundError":
-            return "strict loading of a document with %d element(s) of undefined type did not raise TypeNotFoundError: %s" % (
-                obs["n_unknown"], json.dumps(main)[:200])
-        if not unknown and not _same(main, filt):
+            return "strict loading (%s) of a document with %d element(s) of undefined type did not raise TypeNotFoundError: %s" % (
+                how, obs["n_unknown"], json.dumps(main)[:200])
+        if not unknown and not _same(_content(main), _content(filt)):
             return "strict loading: content differs from the same document written by the harness"
+        if not unknown and _later_differs("strict loading", main, filt):
+            return _later_differs("strict loading", main, filt)
     else:
-        if not _same(main, filt):
-            return "lenient loading is not the filter: lenient %s, strict on the filtered document %s" % (
-                json.dumps(main)[:300], json.dumps(filt)[:300])
-    if not unknown and not _same(main, other):
-        return "all types are known but the lenient flag changes the result: %s vs %s" % (json.dumps(main)[:200], json.dumps(other)[:200])
+        if not _same(_content(main), _content(filt)):
+            return "lenient loading (%s) is not the filter: lenient %s, strict on the filtered document %s" % (
+                how, json.dumps(_content(main))[:300], json.dumps(_content(filt))[:300])
+        if _later_differs("lenient loading is not the filter", main, filt):
+            return _later_differs("lenient loading is not the filter", main, filt)
+    if not unknown and not _same(_content(main), _content(other)):
+        return "all types are known but the lenient flag changes the result (%s): %s vs %s" % (
+            how, json.dumps(_content(main))[:200], json.dumps(_content(other))[:200])
+    if not unknown and _later_differs("all types are known but the lenient flag matters", main, other):
+        return _later_differs("all types are known but the lenient flag matters", main, other)
     for path, tn, out in obs["adds"]:
         if tn == "?":
             return "handle %s could not be obtained: %s" % (path, out)
@@ -250,8 +368,14 @@ def render(sc, obs):
     adds = glist(["(%s, %s, %s)" % (glist([gstr(p) for p in path]), gstr(tn), "None" if o is None else "(Some %s)" % ERR.get(o, "EType"))
                   for path, tn, o in obs["adds"] if tn != "?"])
     flts = glist(["(%s, %s)" % (gstr(k), gstr(v)) for k, v in sorted(obs["flts"].items())])
-    return "mkCase\n %s\n %s\n %s %s\n (%s)\n %s" % (scen.g_schema(schema), xmlabs.g_xdoc(obs["doc"]), flts,
-                                                    gbool(sc["lenient"]), out, adds)
+    later = m.get("later", [])
+    if any(x[0] == "err" for x in later):
+        return None
+    glater = glist(["(%s, %s)" % ({"add": "OpAdd", "view": "OpNewView"}[k], glist(["(%d)" % i for i in ids])) for k, ids in later])
+    src = {"file": "SrcFile", "str": "SrcStr", "path": "SrcPath"}[sc.get("source", "file")]
+    return "mkCase\n %s\n %s\n %s %s %s %s\n (%s)\n %s\n %s" % (scen.g_schema(schema), xmlabs.g_xdoc(obs["doc"]), flts,
+                                                              gbool(sc["lenient"]), src, gbool(bool(sc.get("trusted"))), out,
+                                                              glater, adds)
 
 
 def nontrivial(sc):
@@ -267,10 +391,18 @@ def generate(rng, tier):
     for k in range(n):
         r = random.Random(rng.randrange(1 << 30))
         tspec = scen.gen_tspec(r, n_types=r.choice([3, 5, 8]), max_feats=r.choice([2, 4]))
+        kids_type = None
+        if r.random() < 0.7:     # a string array / list written as nested child elements: what a dropped element may carry
+            t = r.choice([t for t in tspec if t["name"] != "a.MyStr"])
+            if not any(f["name"] == "kids0" for u in tspec for f in u["feats"]):
+                t["feats"].append({"name": "kids0", "range": r.choice([T + "StringArray", T + "StringList"]), "elem": None,
+                                   "multi": r.choice([None, False])})
+                kids_type = t["name"]
         cspec = scen.gen_cspec(r, cassis, tspec, n_objs=(2, 6 if tier == "quick" else 10))
         foreign_short = []
         if k % 3 == 0 and any(t["name"] == "NoNs" for t in tspec):
             tspec, cspec = rename_type(tspec, cspec, "NoNs", "T0")          # short name of a.b.T0
+            kids_type = "T0" if kids_type == "NoNs" else kids_type
         user = [t["name"] for t in tspec if t["name"] != "a.MyStr"]
         foreign_short = [n_.rsplit(".", 1)[-1] for n_ in user if "." in n_][:1]
         used = sorted({o["type"] for o in cspec["objs"] if o["type"] in user})
@@ -279,6 +411,8 @@ def generate(rng, tier):
             base = r.sample(used, r.randint(1, max(1, len(used) // 2))) if used else []
             if "T0" in user and r.random() < 0.6:
                 base = list(set(base) | {"T0"})
+            if kids_type in used and r.random() < 0.5:
+                base = list(set(base) | {kids_type})
             d = close_deleted(tspec, base)
             if len(d) < len(user):
                 picks.append(sorted(d))
@@ -286,18 +420,25 @@ def generate(rng, tier):
             cleared = clear_dangling(cspec, set(deleted))
             dangling = r.random() < 0.3 and cleared != cspec
             cs = cspec if dangling else cleared
+            hi_ids = bool(deleted) and r.random() < 0.5
+            if hi_ids:                                   # the structures that will be dropped carry the highest xmi:ids
+                cs = raise_dropped_ids(cs, set(deleted))
+            noinit = r.random() < 0.25
             order = r.choice([None, None, "shuffle", "sofa_first", "reverse", "desc_id"])
             oseed = r.randrange(1 << 30)
             for lenient in (True, False):
                 yield {"tspec": tspec, "cspec": cs, "deleted": deleted, "lenient": lenient, "dangling": dangling,
-                       "order": order, "oseed": oseed, "foreign_short": [s for s in foreign_short if s not in user]}
+                       "order": order, "oseed": oseed, "foreign_short": [s for s in foreign_short if s not in user],
+                       "source": r.choice(["file", "str", "path"]), "trusted": r.random() < 0.5, "noinit": noinit,
+                       "hi_ids": hi_ids}
 
 
 def shrink_candidates(sc):
-    if sc.get("order"):
-        c = json.loads(json.dumps(sc))
-        c["order"] = None
-        yield c
+    for key, plain in (("order", None), ("noinit", False), ("source", "file"), ("trusted", False)):
+        if sc.get(key) not in (None, plain):
+            c = json.loads(json.dumps(sc))
+            c[key] = plain
+            yield c
     for o in reversed(sc["cspec"]["objs"]):
         c2 = c05._drop_obj(sc["cspec"], o["o"])
         if c2 is not None:
@@ -320,7 +461,7 @@ def shrink_candidates(sc):
 
 
 def signature(sc, msg):
-    return {"what": (msg or "").split(":")[0][:70], "lenient": sc["lenient"]}
+    return {"what": (msg or "").split(":")[0].split(" (source=")[0][:70], "lenient": sc["lenient"]}
 
 
 def distribution(scenarios, observations):
@@ -334,6 +475,13 @@ def distribution(scenarios, observations):
             "dangling": sum(1 for s in scenarios if s["dangling"]), "error_kinds": errs,
             "views": {n: sum(1 for s in scenarios if len(s["cspec"]["views"]) == n) for n in (1, 2, 3)},
             "add_attempts": sum(len(o["adds"]) for o in observations if o),
+            "source": {k: sum(1 for s in scenarios if s.get("source", "file") == k) for k in ("file", "str", "path")},
+            "path_and_lenient_differs_from_trusted": sum(1 for s in scenarios if s.get("source") == "path"
+                                                         and bool(s.get("trusted")) != s["lenient"]),
+            "no_initial_view_sofa": sum(1 for s in scenarios if s.get("noinit")),
+            "highest_id_is_dropped": sum(1 for o in observations if o and o.get("top_dropped")),
+            "later_operations": sum(len(o["main"].get("later", [])) for o in observations if o),
+            "dropped_elements_with_child_elements": sum(1 for o in observations if o and o.get("dropped_kids")),
             "short_name_collisions": sum(1 for s in scenarios if any(t["name"] == "T0" for t in s["tspec"]))}
 
 
